@@ -1128,3 +1128,123 @@ Proof.
   destruct (run_sched_reginv _ _ _ _ Hi Hr) as (A & B & _). specialize (B Hnil). split; [exact B|].
   intros i Hin. destruct (A i Hin) as [H|H]; [rewrite B in H; destruct H|exact H].
 Qed.
+(* ================================================================== 6. witnesses and the bounded exhaustive result *)
+(* instance 1 is registered under name 1 before the concurrent phase starts *)
+Definition pre1 : list op := [OInst false 1 1].
+Definition impl1 : impl := fst (run_ops impl0 pre1).
+Definition spec1 : spec := fst (spec_ops spec0 pre1).
+
+Lemma base_ok_impl1 : base_ok impl1.
+Proof.
+  unfold base_ok, invB, invC. splits.
+  - intros i. vm_compute. reflexivity.
+  - intros i. vm_compute. lia.
+  - intros i. vm_compute. tauto.
+Qed.
+
+(* ---- F10: thread 0 is stopped between the CAS and the locked delete of Close(1); thread 1's Close(1) returns at once;
+   thread 1 then instantiates under the same name and is refused although its own close has returned *)
+Definition f10_prog : list (list op) := [[OClose 1 0]; [OClose 1 0; OInst false 1 2]].
+Definition f10_sched : list nat := [0;0; 1;1;1; 1;1;1;1;1;1;1;1; 0;0;0].
+
+Lemma f10_witness :
+  exists c, run_sched false (init impl1 f10_prog) f10_sched = Some c /\ finished c = true /\
+            map e_ret (filter (fun e => e_thr e =? 1) (rev (hist c))) = [ROk; RErrDup] /\
+            ~ linearizable spec1 (hist c) /\
+            rlin_check false spec1 (hist c) = true /\
+            run_sched true (init impl1 f10_prog) f10_sched = None.
+Proof.
+  destruct (run_sched false (init impl1 f10_prog) f10_sched) as [c|] eqn:E; [|vm_compute in E; discriminate].
+  exists c. split; [reflexivity|].
+  assert (Hc : Some c = run_sched false (init impl1 f10_prog) f10_sched) by (symmetry; exact E).
+  vm_compute in Hc. inversion Hc; subst c. clear Hc E.
+  splits; try (vm_compute; reflexivity).
+  intros H. apply lin_check_complete in H. vm_compute in H. discriminate.
+Qed.
+
+(* every interleaving of the F10 program is explained by the relaxed specification (close = mark + unlink) *)
+Example f10_all_relaxed :
+  check_all false (fun c => finished c && rlin_check false spec1 (hist c)) (S (csize (init impl1 f10_prog))) (init impl1 f10_prog) = true.
+Proof. vm_compute. reflexivity. Qed.
+
+(* ---- the same window in Runtime.Close: the closed flag is set before the store is swept *)
+Definition rtwin_prog : list (list op) := [[ORtClose 0]; [OCompile false; OLook 1]].
+Definition rtwin_sched : list nat := [0;0; 1;1;1; 1;1;1; 0;0].
+
+Lemma rt_window_witness :
+  exists c, run_sched false (init impl1 rtwin_prog) rtwin_sched = Some c /\ finished c = true /\
+            map e_ret (filter (fun e => e_thr e =? 1) (rev (hist c))) = [RErrClosed; RLook (Some 1)] /\
+            ~ linearizable spec1 (hist c) /\ classify spec1 (hist c) = 2%Z.
+Proof.
+  destruct (run_sched false (init impl1 rtwin_prog) rtwin_sched) as [c|] eqn:E; [|vm_compute in E; discriminate].
+  exists c. split; [reflexivity|].
+  assert (Hc : Some c = run_sched false (init impl1 rtwin_prog) rtwin_sched) by (symmetry; exact E).
+  vm_compute in Hc. inversion Hc; subst c. clear Hc E.
+  splits; try (vm_compute; reflexivity).
+  intros H. apply lin_check_complete in H. vm_compute in H. discriminate.
+Qed.
+
+(* ---- the close notifier is attached after registration: a close that comes in between never notifies *)
+Definition lost_prog : list (list op) := [[OInst false 1 1]; [OClose 1 0]].
+Definition lost_sched : list nat := [0;0;0;0; 1;1;1;1;1; 0;0].
+
+Lemma notify_lost_witness :
+  exists c, run_sched true (init impl0 lost_prog) lost_sched = Some c /\ finished c = true /\
+            lin_check spec0 (hist c) = true /\
+            is_closed (st c) 1 = true /\ count 1 (res_log (st c)) = 1 /\
+            In 1 (attached (st c)) /\ In 1 (notif (st c)) /\ count 1 (notified (st c)) = 0.
+Proof.
+  destruct (run_sched true (init impl0 lost_prog) lost_sched) as [c|] eqn:E; [|vm_compute in E; discriminate].
+  exists c. split; [reflexivity|].
+  assert (Hc : Some c = run_sched true (init impl0 lost_prog) lost_sched) by (symmetry; exact E).
+  vm_compute in Hc. inversion Hc; subst c. clear Hc E.
+  splits; try (vm_compute; reflexivity); cbn; auto.
+Qed.
+
+(* ---- bounded exhaustive result for close-atomic schedules.
+   Alphabet (one name, instance 1 pre-registered under it): instantiate under the name (fresh identity), look the name up,
+   close instance 1, read its closed word, close the runtime, compile.
+   Programs: two threads with one operation each; two threads with (<=2, 1) operations; three threads with one operation each
+   of which at most one is an instantiate. At most 3 operations in total. *)
+Definition alpha (id : nat) : list op :=
+  [OInst false 1 id; OLook 1; OClose 1 0; OIsClosed 1; ORtClose 0; OCompile false].
+Definition nth_op (k id : nat) : op := nth k (alpha id) (OLook 1).
+Definition seqs2 : list (list op) :=
+  map (fun o => [o]) (alpha 10) ++ flat_map (fun o1 => map (fun o2 => [o1; o2]) (alpha 11)) (alpha 10).
+Definition progs21 : list (list (list op)) := flat_map (fun p0 => map (fun o => [p0; [o]]) (alpha 12)) seqs2.
+Definition progs111 : list (list (list op)) :=
+  flat_map (fun a => flat_map (fun b => flat_map (fun c =>
+     if (a <=? b) && (b <=? c) && (1 <=? b) then [[[nth_op a 10]; [nth_op b 12]; [nth_op c 14]]] else [])
+     (seq 0 6)) (seq 0 6)) (seq 0 6).
+Definition bounded_progs : list (list (list op)) := progs21 ++ progs111.
+
+Definition lin_ok (c : config) : bool := finished c && lin_check spec1 (hist c).
+Definition prog_ok (p : list (list op)) : bool :=
+  check_all true lin_ok (S (csize (init impl1 p))) (init impl1 p).
+
+Lemma bounded_progs_checked : forallb prog_ok bounded_progs = true.
+Proof. vm_cast_no_check (eq_refl true). Qed.
+
+Lemma linearizable_atomic_bounded p sched c :
+  In p bounded_progs -> run_sched true (init impl1 p) sched = Some c -> finished c = true ->
+  linearizable spec1 (hist c).
+Proof.
+  intros Hin Hr Hf. pose proof bounded_progs_checked as H. rewrite forallb_forall in H. specialize (H p Hin).
+  unfold prog_ok in H. pose proof (check_all_run true lin_ok _ sched c H Hr Hf) as Hok.
+  unfold lin_ok in Hok. apply andb_true_iff in Hok. apply lin_check_sound. tauto.
+Qed.
+
+(* non-vacuity: the F10 program itself is in the set (its close-atomic schedules all linearize, its other schedules do not),
+   and close-atomic complete schedules exist *)
+Example bounded_nonvacuous :
+  In [[OClose 1 0; OInst false 1 11]; [OClose 1 0]] bounded_progs /\
+  (exists c, run_sched true (init impl1 [[OClose 1 0; OInst false 1 11]; [OClose 1 0]])
+                [0;0;0;0;0; 1;1;1; 0;0;0;0;0;0] = Some c /\ finished c = true /\
+             map e_ret (rev (hist c)) = [ROk; ROk; ROk]) /\
+  length bounded_progs = 302.
+Proof.
+  splits.
+  - vm_compute. tauto.
+  - eexists. splits; vm_compute; reflexivity.
+  - vm_compute. reflexivity.
+Qed.
